@@ -118,7 +118,8 @@ def run_assignment(ctx, tname, seq, both_contexts=True, then=()):
     mod = cls_of(tname)()
     back = run_generation(ctx, tname, mt, mod, state, seq, both_contexts, "")
     for gi, (carrier, seq2) in enumerate(then, 2):
-        mod = back if carrier == "loaded" else back.clone()
+        # "same": the very object that has just been saved (stand-alone and inside a project) goes on being edited
+        mod = back if carrier == "loaded" else back.clone() if carrier == "clone" else mod
         back = run_generation(ctx, tname, mt, mod, state, seq2, both_contexts, ".gen%d_%s" % (min(gi, 3), carrier))
     return state
 
@@ -253,12 +254,25 @@ def run_regen(ctx, tname):
     for o in mt.options:
         for v1 in pair_values(o):
             for v2 in pair_values(o):
-                for carrier in ("loaded", "clone"):
+                for carrier in ("loaded", "clone", "same"):
                     ctx.label("second_generation_same_option")
                     if o.size > 1 and int(v2) < int(v1):
                         ctx.label("multibit_lowered_on_loaded_object")
                     guarded(ctx, tname, [[o.name, v1]], then=[[carrier, [[o.name, v2]]]])
     ctx.sample({"type": tname, "regen": len(mt.options)})
+
+
+def run_exclusive_split(ctx, tname):
+    """One member of a mutually exclusive pair is switched on, the object is saved (and loaded / cloned / kept),
+    then the other member is switched on."""
+    mt = specmodel.load()[tname]
+    for o in mt.options:
+        for other in o.exclusive_of:
+            for carrier in ("same", "loaded", "clone"):
+                for first in ([[o.name, True]], [[o.name, True], [other, False]], [[other, True], [o.name, True]]):
+                    ctx.label("exclusive_pair_across_a_save")
+                    guarded(ctx, tname, first, then=[[carrier, [[other, True]]]])
+                    guarded(ctx, tname, first, then=[[carrier, [[other, True]]], [carrier, [[o.name, True]]]])
 
 
 def pair_values(o):
@@ -310,7 +324,7 @@ def random_assignment(draw):
     for c in cuts + [n]:
         parts.append(seq[lo:c])
         lo = c
-    then = [[draw(st.sampled_from(["loaded", "clone"])), part] for part in parts[1:] if part]
+    then = [[draw(st.sampled_from(["loaded", "clone", "same"])), part] for part in parts[1:] if part]
     return {"type": tname, "seq": parts[0], "then": then}
 
 
@@ -322,6 +336,7 @@ def run_shard(ctx, desc):
         run_singles(ctx, desc["type"])
     elif k == "regen":
         run_regen(ctx, desc["type"])
+        run_exclusive_split(ctx, desc["type"])
     elif k == "pairs":
         run_pairs(ctx, desc["type"], desc["part"], desc["parts"])
     else:
